@@ -18,8 +18,10 @@
    check p = Ok vs excludes Panic (include path runs off the stack) and OutOfFuel
    (closure of Var.Refs not reached in the allotted rounds; C17_check_total shows
    that this never happens). *)
-From PV Require Import Lib.Bytes Model.Redundant Spec.MakeEval Spec.VerdictSound
-  Proofs.RedundantRefuted Proofs.RedundantSound Proofs.RedundantReads Proofs.RedundantTotal.
+From PV Require Import Lib.Bytes Model.Redundant Model.RedundantPaths Spec.MakeEval Spec.VerdictSound
+  Spec.PathDenote Spec.SpellingIndep
+  Proofs.RedundantRefuted Proofs.RedundantSound Proofs.RedundantReads Proofs.RedundantTotal
+  Proofs.RedundantPaths.
 
 Definition C17_verdict_sound_full : Prop :=
   forall (p : program) (vs : list verdict) (vd : verdict),
@@ -116,3 +118,64 @@ Proof. exact prog_incdefault_facts. Qed.
 
 Example C17_repaired_shell_reads_itself : check prog_shellself = Ok [].
 Proof. exact prog_shellself_facts. Qed.
+
+(* ---------- verdicts in the context of the including file: file NAMES ----------
+
+   pprogram      : lines labelled with the path under which the loader read their file
+   check_spelled : Model/RedundantPaths.v, RedundantScope.Check as coded (names compared as strings)
+   check_denoted : Spec/SpellingIndep.v, the same analysis with names compared by what they
+                   denote (Spec/PathDenote.denote, the specification of C19)
+   same_shape cwd p q : q is p respelled (line by line: same denotation, line number, body)
+   one_spelling cwd p : no file of p is spelled in two ways (guaranteed by Package.loadIncluded,
+                   which splices every file once: pkg.included.FirstTime(Relpath(...))) *)
+
+(* On denotations the verdicts are the same for ALL programs and ALL spellings. *)
+Theorem C17_denoted_spelling_independent :
+  forall (cwd : str) (p q : pprogram),
+    same_shape cwd p q -> check_denoted cwd p = check_denoted cwd q.
+Proof. exact denoted_spelling_independent. Qed.
+Print Assumptions C17_denoted_spelling_independent.
+
+(* The Go code is that analysis whenever every file has one name. *)
+Theorem C17_spelled_is_denoted :
+  forall (cwd : str) (p : pprogram),
+    one_spelling cwd p -> check_spelled p = check_denoted cwd p.
+Proof. exact spelled_is_denoted. Qed.
+Print Assumptions C17_spelled_is_denoted.
+
+(* Hence: all spellings with equal denotation give the same verdicts. *)
+Theorem C17_verdict_spelling_independent :
+  forall (cwd : str) (p q : pprogram),
+    same_shape cwd p q -> one_spelling cwd p -> one_spelling cwd q ->
+    check_spelled p = check_spelled q.
+Proof. exact verdict_spelling_independent. Qed.
+Print Assumptions C17_verdict_spelling_independent.
+
+(* one_spelling is needed: RedundantScope takes the same file under two names for two files. *)
+Theorem C17_spelling_independent_needs_one_spelling :
+  ~ (forall cwd p q, same_shape cwd p q -> check_spelled p = check_spelled q).
+Proof. exact spelling_independent_needs_one_spelling. Qed.
+Print Assumptions C17_spelling_independent_needs_one_spelling.
+
+(* "the flagged line can be deleted" does not depend on names at all. *)
+Theorem C17_deletable_spelling_independent :
+  forall (cwd : str) (e1 e2 : str -> str -> bool) (p q : pprogram) (i : nat),
+    same_shape cwd p q -> deletable (intern_by e1 p) i -> deletable (intern_by e2 q) i.
+Proof. exact deletable_spelling_independent. Qed.
+Print Assumptions C17_deletable_spelling_independent.
+
+(* The partial soundness theorem for programs whose files are spelled arbitrarily,
+   for the analysis as coded and for the analysis on denotations. *)
+Theorem C17_verdict_sound_spelled_partial :
+  forall (p : pprogram) (vs : list verdict) (vd : verdict),
+    wf_program (forget p) = true -> check_spelled p = Ok vs -> In vd vs ->
+    guard (forget p) vd = true -> deletable (forget p) (vd_flagged vd).
+Proof. exact verdict_sound_spelled. Qed.
+Print Assumptions C17_verdict_sound_spelled_partial.
+
+Theorem C17_verdict_sound_denoted_partial :
+  forall (cwd : str) (p : pprogram) (vs : list verdict) (vd : verdict),
+    wf_program (forget p) = true -> check_denoted cwd p = Ok vs -> In vd vs ->
+    guard (intern_by (same_denotation cwd) p) vd = true -> deletable (forget p) (vd_flagged vd).
+Proof. exact verdict_sound_denoted. Qed.
+Print Assumptions C17_verdict_sound_denoted_partial.
